@@ -311,7 +311,7 @@ fn gen_crash_op(rng: &mut StdRng, u: &Universe, stored: &[(u64, u64)], stored_ha
             Op::Insert(_) => return op,
             Op::Remove(h) | Op::Mark(h) | Op::Meta(h, _) => *h,
         };
-        if in_store(h) || rng.gen_bool(0.15) {
+        if in_store(h) || rng.gen_bool(0.3) {
             return op;
         }
         if let Some(r) = stored.choose(rng) {
@@ -471,6 +471,7 @@ async fn one_history(seed: u64, run: u64, ops: u64, len: u64, subsets: u64, exha
     hist.push(OpRec { jb: 0, je: p0, st: st0 });
 
     let mut committed = 0u64;
+    let mut failed: Vec<Op> = vec![];
     for i in 1..=ops {
         let stored: Vec<(u64, u64)> =
             store.get_stored_header_ranges().await.unwrap().as_ref().iter().map(|r| (*r.start(), *r.end())).collect();
@@ -482,7 +483,18 @@ async fn one_history(seed: u64, run: u64, ops: u64, len: u64, subsets: u64, exha
                 }
             }
         }
-        let op = if big { gen_big_op(&mut rng, &u, &stored, &stored_hashes) } else { gen_crash_op(&mut rng, &u, &stored, &stored_hashes) };
+        // Operations that failed earlier are tried again once their height is stored (an acknowledged
+        // success must survive whatever failed before it on the same store handle).
+        let in_store = |h: u64| stored.iter().any(|(a, b)| *a <= h && h <= *b);
+        let retry = failed.iter().position(|o| matches!(o, Op::Remove(h) | Op::Mark(h) | Op::Meta(h, _) if in_store(*h)));
+        let op = match retry {
+            Some(k) if rng.gen_bool(0.5) => {
+                sum.add("retried_failed_ops", 1);
+                failed.remove(k)
+            }
+            _ if big => gen_big_op(&mut rng, &u, &stored, &stored_hashes),
+            _ => gen_crash_op(&mut rng, &u, &stored, &stored_hashes),
+        };
         let (name, mut ev) = match &op {
             Op::Insert(b) => {
                 let mut ids = vec![];
@@ -510,6 +522,12 @@ async fn one_history(seed: u64, run: u64, ops: u64, len: u64, subsets: u64, exha
             }
         };
         let je = be.pos();
+        if r != R_OK {
+            sum.add("failed_ops", 1);
+            if !matches!(op, Op::Insert(_)) && failed.len() < 8 {
+                failed.push(op.clone());
+            }
+        }
         let st = project_all(&store, &it, len, &ident, big).await;
         if st != hist.last().unwrap().st {
             committed += 1;
